@@ -21,6 +21,8 @@ func init() {
 }
 
 func runC07(c *eng.Ctx) {
+	c.Rule("R07.10", "K4")
+	ruleBarrierUnderTheProposalLock(c)
 	c.Rule("R07.10", "K5")
 	ruleChangeLeaderPreconditionLooksThePartitionUp(c)
 	c.Rule("R02.7", "K5")
